@@ -139,36 +139,36 @@ func parseLine(res *childResult, line []byte) {
 
 // batch is the aggregate of a fan-out.
 type batch struct {
-	runs       int
-	steps      int64
-	switches   int64
-	faults     map[string]int
-	probes     map[string]int
-	sitesHit   map[uint32]bool
-	sitesTotal int
-	violations []*core.Record
-	samples    []*core.Record
-	deaths     []death
-	distinct   map[uint64]bool // nontrivial distinct case hashes
-	distinct2  map[uint64]bool // second distinct-set (C12: preemption pairs)
-	counts     map[string]map[string]int
+	runs        int
+	steps       int64
+	switches    int64
+	faults      map[string]int
+	probes      map[string]int
+	sitesHit    map[uint32]bool
+	sitesTotal  int
+	violations  []*core.Record
+	samples     []*core.Record
+	deaths      []death
+	distinct    map[uint64]bool // nontrivial distinct case hashes
+	distinct2   map[uint64]bool // second distinct-set (C12: preemption pairs)
+	counts      map[string]map[string]int
 	distinctAll int
-	extra      map[string]any
-	mu         sync.Mutex
+	extra       map[string]any
+	mu          sync.Mutex
 }
 
 // death is a run during which the child process died.
 type death struct {
-	k      int64
-	group  string
-	exit   int
-	signal string
-	stderr string
+	k        int64
+	group    string
+	exit     int
+	signal   string
+	stderr   string
 	timedOut bool
-	race   bool
-	entry  string // from the black box: what was being handed to the library
-	input  []byte
-	hasBox bool
+	race     bool
+	entry    string // from the black box: what was being handed to the library
+	input    []byte
+	hasBox   bool
 }
 
 func newBatch() *batch {
